@@ -28,9 +28,12 @@ def tri_rows(rng, d, dim, vb, kind):
 def gen_cases(ctx):
     rng = ctx.rng
     cases = []
-    for d in list(range(1, 11)) * (2 if ctx.quick() else 8):
-        kind = rng.choice(["unit", "random"])
-        cases.append({"d": d, "rows": tri_rows(rng, d, rng.randint(1, 3), 20, kind), "kind": kind})
+    # every degree in every ambient dimension 1, 2, 3 (a special path for one-row nets of one degree escaped random dimensions:
+    # seed c09-6)
+    for d in list(range(1, 11)) * (1 if ctx.quick() else 6):
+        for dim in (1, 2, 3):
+            kind = rng.choice(["unit", "random", "random"])
+            cases.append({"d": d, "rows": tri_rows(rng, d, dim, 20, kind), "kind": kind})
     # one degree in several ambient dimensions in a row, larger first and smaller first (all cases of a configuration run in one
     # process: scratch space of the compiled routines must not leak from one call to the next)
     for d in (2, 5, 6):
